@@ -27,7 +27,10 @@ LEVEL_TEXT = ('Exact TLA+ model of the discrete structure of the three projectio
               'between the parallels, one-parallel equivalent, argument order, sin/cos form, SetScale equivalence, Mercator / polar '
               'stereographic / cylindrical and azimuthal equal-area limits against Ellipsoid and PolarStereographic, singletons) are '
               'validated by TLC on seeded random ellipsoids (oblate and prolate to |f| = 0.25), parallels (incl. nearly equal pairs '
-              'down to 1e-12 degree and poles) and points (incl. both poles) with the 10 nm / 7e-15 / 4.5e-14 degree bounds of the headers.')
+              'down to 1e-12 degree and poles) and points (incl. both poles) with the 10 nm / 7e-15 / 4.5e-14 degree bounds of the headers. '
+              'The object under SetScale is a state machine of the specification (the scale in force is the constructor\'s or the last '
+              'non-throwing call\'s; a throwing call changes nothing observable), explored by TLC over all paths of calls and replayed; '
+              'every Forward / Reverse overload and default argument is held to the call it documents it is equivalent to.')
 DESIGN_REF = 'DESIGN.md section 4, C11'
 LEVEL_NOTE = ('Trusted: TLC, ConicSym.tla, the long-double Snyder closed forms and metric of drv_conic.cpp. Off the lattice the spec is '
               'relational: a change below 10 nm x a/a_WGS84 (true distance) is not a violation; absolute accuracy is decided through the '
@@ -45,8 +48,8 @@ def to_rows(vals):
 def run(ctx):
     dense = 'FALSE' if ctx.quick else 'TRUE'
     base = ('INIT Init\nNEXT Next\nCONSTANTS Part = "%s" NChunks = 16 Dense = %s\n'
-            'INVARIANTS CtorInv SetsInv HomInv SymInv AncInv EqvInv Emit\nCHECK_DEADLOCK FALSE\n')
-    parts = [(p, base % (p, dense)) for p in ('ctor', 'grp', 'anc')]
+            'INVARIANTS CtorInv SetsInv SeqInv HomInv SymInv AncInv EqvInv Emit\nCHECK_DEADLOCK FALSE\n')
+    parts = [(p, base % (p, dense)) for p in ('ctor', 'seq', 'grp', 'anc')]
     nobj = 14000 if ctx.quick else 500000
     rows, traces = vlib.lattice_pipeline(ctx, 'MC_ConicSym', parts, to_rows, 'drv_conic', ['replay'],
                                          ['record', ctx.seed, nobj], 'Trace_ConicSym',
@@ -79,6 +82,21 @@ def run(ctx):
                         kinds['pt.nearly-equal-parallels(<1e-3deg)'] += 1
                     if r['kf'] != 'none':
                         kinds['pt.kf=' + r['kf']] += 1
+                    if r['pol'] and r['cosq'] == 0 and ((r['sgn'] == 1) == (r['latq'] > 0)):
+                        kinds['pt.at-the-pole-of-a-polar-aspect(unweighted k, gamma laws).' + r['fam']] += 1
+                    if r['rk0'] != -1:
+                        kinds['pt.reverse-lands-on-origin-latitude'] += 1
+                if e == 'ss':
+                    kinds['ss.inadmissible-call.%s' % r.get('bres', 'none')] += 1
+                if e == 'seq':
+                    kinds['seq.calls'] += len(r['calls'])
+                    kinds['seq.calls-that-throw'] += sum(1 for o in r['out'] if o == 0)
+                if e == 'sets' and r['kc'] == 7:
+                    kinds['sets.default-argument'] += 1
+                if e == 'ctor':
+                    kinds['ctor.ct=%d.%s' % (r['ct'], r['out'])] += 1
+                if e in ('anc', 'ctor') and r.get('kf', 'none') != 'none':
+                    kinds['%s.kf=%s' % (e, r['kf'])] += 1
                 if e == 'lim':
                     kinds['lim.' + r['lk']] += 1
     for k, n in sorted(kinds.items()):
@@ -87,10 +105,14 @@ def run(ctx):
     return ctx.finish(RULE, TRUSTED)
 
 
-RULE = ('vectors enumerated by TLC from MC_ConicSym: constructor calls (family x form x parallels on {-91,-90,-89,-45,0,30,89,90,91} '
-        'degrees with -1/0/+1 ulp, sin/cos codes incl. malformed pairs, special values of a, f, k) and SetScale calls; every element of the '
-        'symmetry group reachable within the bound applied to base inputs; every rational anchor of the closed forms on the 30-degree '
-        'sphere lattice; every pair of equivalent constructor forms; plus seeded random records (ob, pt, lim, ss, sg). '
+RULE = ('vectors enumerated by TLC from MC_ConicSym: constructor calls (every form - one parallel, two parallels, sines/cosines, '
+        'un-normalised sines/cosines, PolarStereographic - x parallels on {-91,-90,-89,-45,0,30,89,90,91} degrees with -1/0/+1 ulp, NaN and '
+        '+-inf in either position, sin/cos codes incl. malformed / NaN / infinite pairs in either position, every bad class of a, f, k with '
+        'every form) and SetScale calls (incl. the default argument) on objects built with a scale that no call writes; every path of two '
+        '(thorough: three) SetScale calls - admissible, throwing, default argument - from every kind of object, with the scale in force '
+        'after each call; every element of the symmetry group reachable within the bound applied to base inputs, for Forward and for '
+        'Reverse; every rational anchor of the closed forms on the 30-degree sphere lattice, for Forward and for Reverse of the image; '
+        'every pair of equivalent constructor forms; plus seeded random records (ob, pt, lim, ss, sg). '
         'distinct_nontrivial = distinct lattice vectors.')
 TRUSTED = ['TLC', 'ConicSym.tla', 'drv_conic.cpp (long-double closed forms of Snyder PP1395, ellipsoid metric, finite differences used to '
            'reduce each law to an integer residual)']
